@@ -1,7 +1,8 @@
 (* EndToEnd.v — the chain  Rust-shaped VM (L0, copy-on-write state)  ->  reference state (L1)
    ->  small-step machine  ->  compiled code generates exactly the reference semantics' results,
    assembled: what [vm_run] reports for a compiled (wrapped) pattern is what the reference search
-   [search_list] says.  Stage 1: programs without a Delegate instruction, patterns without
+   [search_list] says.  Scope: programs whose Delegate instructions hand over deterministic capture-free
+   blocks ([okdeleg]), patterns without
    a conditional inside an atomic group, look-around or condition (predicate [oke true]). *)
 From FR Require Import Base State Utf8 Utf8Facts Chars Ast Analyze Sem ExprLemmas SemSound GoBack
                        Vm Compile StateRefine VmRefine Machine CompileCorrect RunCorrect.
@@ -21,7 +22,7 @@ Variable bs : N -> bool.
 Variable e : expr.
 Variable p : prog.
 Hypothesis Hcomp : compile bs (wrap e) = inr p.
-Hypothesis Hnd : nodeleg (p_body p).
+Hypothesis Hnd : okdeleg (p_body p).
 Hypothesis Hok : oke true 0 (wrap e).
 Variable fuel : nat.
 Hypothesis Hfuel : length (concat cs) < fuel.
@@ -41,7 +42,7 @@ Proof.
   inversion Hcomp; subst p. clear Hcomp. cbn [p_body p_nsaves] in *.
   assert (Eg : ngroups (wrap e) * 2 = NC) by (rewrite ngroups_wrap; unfold NC; lia).
   rewrite Eg in Hv.
-  apply nodeleg_app in Hnd as [Hndc _].
+  apply okdeleg_app in Hnd as [Hndc _].
   assert (HAt : At (code ++ [IEnd]) 0 code).
   { intros k i Hk. cbn [Nat.add]. rewrite nth_error_app1; auto. apply nth_error_Some. congruence. }
   assert (HNC : 2 <= NC) by (unfold NC; lia).
